@@ -389,6 +389,11 @@ def attribute(case, pair):
 
 
 # ------------------------------------------------------------------ model side
+def qdec(x):
+    """configuration constants enter the model with their decimal value (0.3 is 3/10, not the nearest double)"""
+    return qlit(Fraction(repr(float(x)))) if not isinstance(x, int) else qlit(x)
+
+
 def amp_s(e):
     return (e['uid'], e['variety'], e['gain'], e['dp'], e['tilt'], e['voa'], e['in_voa'])
 
@@ -398,8 +403,8 @@ def line_amp_term(case, ob, ln, cfg):
     si = case.get('si') or {}
     pref = si.get('power_dbm', 0)
     dpr = sp['delta_power_range_db']
-    s = (f'sc {"true" if sp["power_mode"] else "false"} {qlit(dpr[0])} {qlit(dpr[1])} {qlit(dpr[2])} {qlit(0.3)} {qlit(20.0)} '
-         f'{qlit(sp.get("voa_margin", 1))} {qlit(sp.get("voa_step", 0.5))} {qlit(2.5)}')
+    s = (f'sc {"true" if sp["power_mode"] else "false"} {qdec(dpr[0])} {qdec(dpr[1])} {qdec(dpr[2])} {qdec(0.3)} {qdec(20.0)} '
+         f'{qdec(sp.get("voa_margin", 1))} {qdec(sp.get("voa_step", 0.5))} {qdec(2.5)}')
     after = next(a for a in ob['after'] if a['src'] == ln['src'] and a['dst'] == ln['dst'] and same_line(ln, a))
     if pad_tie(case, ln, after):
         return 'tie', None
@@ -411,7 +416,7 @@ def line_amp_term(case, ob, ln, cfg):
             p = eq['Edfa'][v]
             lib.append(f'({strlit(v)}%string, lb {qlit(p.p_max)} {qlit(p.gain_flatmax)} {"true" if p.out_voa_auto else "false"})')
     sel = [f'({strlit(a["uid"])}%string, {strlit(a["variety"])}%string)' for a in amps]
-    rg = [f'({strlit(u)}%string, {qlit(round(g, 2))})' for u, g in ob['rgain'].items()
+    rg = [f'({strlit(u)}%string, {qlit(g)})' for u, g in ob['rgain'].items()
           if any(e['uid'] == u for e in ln['els'])]
     ops = []
     for e in ln['els']:
@@ -646,7 +651,8 @@ def run(ctx):
         v_before = simparams_vars()
         names = sorted(case['roadms'])
         pair = None
-        if rng.random() < 0.15 and len(names) >= 2:
+        total_km = sum(e['len'] for ln in case['lines'] for e in ln['els'] if e['k'] in 'FR')
+        if rng.random() < 0.2 and len(names) >= 2 and total_km < 1500:
             a, b = rng.sample(names, 2)
             pair = ('trx ' + a.split(' ', 1)[1], 'trx ' + b.split(' ', 1)[1])
         res = roundtrip(case, want_obs=True, propagate_pair=pair)
@@ -684,7 +690,8 @@ def run(ctx):
         ctx.count('propagated_pairs', 1 if pair else 0)
         if d:
             ctx.count('cases_with_drift')
-            causes = attribute(case, pair)
+            only_prop = all(u == '<propagation>' for _, u, _, _, _ in d)
+            causes = attribute(case, pair if only_prop else None)
             k, u, p, x, y = d[0]
             desc = f'round {k}->{k + 1}: {len(d)} differences, first {u}{p}: {x} -> {y}'
             if causes is None:
@@ -727,6 +734,9 @@ def run(ctx):
     ctx.extra['t_model'] = round(time.time() - t0, 1)
     t0 = time.time()
     for (sc, k, ln, amps, exported), line in zip(meta, out):
+        if line == 'TIE':
+            ctx.count('skipped_rounding_tie_lines')
+            continue
         dm, em = parse_amps(line)
         if isinstance(dm, tuple):
             ctx.corr_break('corr:Redesign.design_line_amps', f'round {k + 1} line {ln["src"]}->{ln["dst"]}: model raises {dm[1]}', sc,
